@@ -162,7 +162,29 @@ class Engine:
             # dependencies analysed in another unit (e.g. ark_ff when running a curve crate's code)
             for fn in self.facts.fns():
                 self._index.setdefault(fn.id, fn)
-        return self._index.get(f.get("res") or "") or self._index.get(f.get("path") or "")
+        hit = self._index.get(f.get("res") or "") or self._index.get(f.get("path") or "")
+        if hit is not None or not f.get("trait") or f.get("res"):
+            return hit
+        # unresolved trait call inside an inlined generic body: the instantiation is known from the call
+        # chain (type context); pick the impl of that trait whose Self type head occurs first in the context
+        if not hasattr(self, "_by_trait"):
+            self._by_trait = {}
+            for fn in self.facts.fns():
+                if fn.trait_impl and fn.kind != "Closure":
+                    self._by_trait.setdefault((fn.trait_impl, fn.name), []).append(fn)
+        cands = self._by_trait.get((f["trait"], f.get("name")), [])
+        if not cands:
+            return None
+        best = None
+        for ctx in self.type_context():
+            for fn in cands:
+                head = (fn.impl.get("self") or "").split("<")[0]
+                i = ctx.find(head + "<") if head else -1
+                if i >= 0 and (best is None or i < best[0]):
+                    best = (i, fn)
+            if best:
+                return best[1]
+        return None
 
     # ---- memory
     def locate(self, frame, place):
@@ -398,6 +420,15 @@ class Engine:
             return self.operand(fr, r["o"])
         if k in ("ref", "raw"):
             l, projs = place_parts(r["p"])
+            # index projections are resolved now (the index local may change / be out of scope later)
+            rp = []
+            for pr in projs:
+                if isinstance(pr, (list, tuple)) and pr[0] == "i":
+                    iv = fr.cell(pr[1]).v
+                    if isinstance(iv, int) and not isinstance(iv, bool):
+                        pr = ["ci", iv, False]
+                rp.append(pr)
+            projs = rp
             # normalise &(*p) to p's target
             if projs and projs[0] == "*":
                 base = fr.cell(l).v
